@@ -32,3 +32,36 @@ Definition agrees (o : outcome) : bool :=
 
 (* the outcome of a file that parses without error *)
 Definition valid_outcome (src : string) (o : outcome) : Prop := check src = Ok o /\ o_valid o = true.
+
+(* an over-report contradicts "reported <-> demanded" (used by C20_full_refuted; no computation under Qed) *)
+From LH Require Import Proofs.PatternsLocal.
+Lemma place_eqb_refl p : place_eqb p p = true.
+Proof.
+  unfold place_eqb. rewrite N.eqb_refl. cbn. apply loc_eqb_eq. reflexivity.
+Qed.
+
+Lemma over_reported_not_iff : forall o ty,
+  over_reported o ty = true ->
+  ~ (forall t L, reported t L (o_model o) <-> In (t, L) (o_spec o)).
+Proof.
+  intros o ty Hov Hall.
+  unfold over_reported in Hov. apply existsb_exists in Hov. destruct Hov as [r [Hin Hr]].
+  apply andb_true_iff in Hr. destruct Hr as [_ Hneg].
+  apply negb_true_iff in Hneg.
+  assert (Hrep : reported (r_ty r) (r_loc r) (o_model o)).
+  { exists r. repeat split; auto. }
+  apply Hall in Hrep.
+  assert (Hex : existsb (place_eqb (r_ty r, r_loc r)) (o_spec o) = true).
+  { apply existsb_exists. exists (r_ty r, r_loc r). split; [exact Hrep|apply place_eqb_refl]. }
+  congruence.
+Qed.
+
+Lemma full_refuted_from : forall src o ty,
+  valid_outcome src o -> over_reported o ty = true ->
+  ~ (forall fclose gbk bs o,
+      check_bytes fclose gbk classify_tok bs = Ok o -> o_valid o = true ->
+      forall ty L, reported ty L (o_model o) <-> In (ty, L) (o_spec o)).
+Proof.
+  intros src o ty [Hc Hv] Ho H. unfold check in Hc.
+  exact (over_reported_not_iff o ty Ho (H _ _ _ o Hc Hv)).
+Qed.
